@@ -3,6 +3,7 @@ package main
 // Term layer: hash-consed, constant-folding SMT terms (Bool, BitVec, Array BV64->BV8).
 
 import (
+	"encoding/binary"
 	"fmt"
 	"math/bits"
 	"strings"
@@ -104,12 +105,15 @@ type TermStore struct {
 var TS = &TermStore{tab: map[string]*Term{}, vars: map[string]*Term{}}
 
 func (ts *TermStore) mk(op Op, s Sort, c uint64, name string, args ...*Term) *Term {
-	var sb strings.Builder
-	fmt.Fprintf(&sb, "%d|%d|%d|%d|%s", op, s.K, s.W, c, name)
+	buf := make([]byte, 0, 24+len(name)+4*len(args))
+	buf = append(buf, byte(op), byte(s.K), byte(s.W), byte(s.W>>8))
+	buf = binary.LittleEndian.AppendUint64(buf, c)
+	buf = append(buf, name...)
+	buf = append(buf, 0)
 	for _, a := range args {
-		fmt.Fprintf(&sb, "|%d", a.ID)
+		buf = binary.LittleEndian.AppendUint32(buf, uint32(a.ID))
 	}
-	k := sb.String()
+	k := string(buf)
 	if t, ok := ts.tab[k]; ok {
 		return t
 	}
